@@ -117,4 +117,32 @@ PROPS["C08"] = {
     "assumptions": ["real-size (4 MiB) frames are checked by length arithmetic only (part big); byte-level correspondence uses payloads up to 2000 bytes"],
 }
 
+FWD_REASONS = {
+    "1": "requests seen by the target are not a prefix of what the client sent (dropped / duplicated / reordered / altered)",
+    "2": "responses seen by the client are not a prefix of what the target sent",
+    "3": "a non-streaming direction carried more than one message",
+    "4": "the call returned without closing the outgoing stream it created",
+    "5": "the call did not return although every adapter honours the context (hang)",
+    "6": "success reported but not all of the target's messages were delivered",
+    "7": "the reported status has no source (not the target's, not an adapter error, not the context's)"}
+PROPS["C01"] = {
+    "parts": [{"name": "forward", "pkg": "c01", "chk": "chk_fwd"}],
+    "reasons": {"forward": FWD_REASONS},
+    "rule": "random call scripts (4 RPC kinds; 0-3 client messages then EOF/error/silence; 0-3 target messages with causal guards then EOF/status/silence; rare send/open failures; 45% a context event) each run 3x on the real ProxyForwarder / grpcbridge.Forwarder with scripted fake streams under seeded Gosched/sleep perturbation; fakes keep the proto.Message pointers and compare contents at the end; non-trivial = script with client items and target items",
+    "level_text": "Coq theorems over ALL scripts and ALL schedules of the forwarder LTS (induction on reachability, one case per atomic step): requests/responses seen are prefixes of what was sent, in order; non-streaming directions carry at most one message. Tied to the code by running the real Forward on scripted fakes and checking that the observed outcome is one the model can produce (exhaustive exploration of the model, used only as validation) and satisfies the executable property.",
+    "level_note": "Trusted: Coq kernel, extraction, modelrun, Go harness fakes. Modelled, not verified: Go channel/goroutine semantics at the granularity of DESIGN appendix A.1; grpc-go behind AdaptedClientStream; byte identity of re-marshalled messages is protobuf-go's.",
+    "design_ref": "DESIGN.md §3 C01, appendix A.1",
+    "assumptions": ["completeness on success / final-status theorems for fault-free scripts are stated as the executable property (reasons 6, 7) and checked on every run; their Coq proof is not finished (draft kept in work/wip)"],
+}
+PROPS["C02"] = {
+    "parts": [{"name": "forward", "pkg": "c01", "chk": "chk_fwd"},
+              {"name": "proxy_idle", "pkg": "c01", "chk": "chk_fwd_e2e", "args": ["e2e"]}],
+    "reasons": {"forward": FWD_REASONS, "proxy_idle": {"5": "an idle gRPC client did not learn of the target's termination within 1.5 s (the proxied call hangs)", "7": "the idle client saw a status other than the target's"}},
+    "rule": PROPS["C01"]["rule"] + "; fault scripts: every position of EOF / status / silence on both sides, send and open failures, cancel/deadline fired before the k-th adapter operation (k random) or when both sides are idle; 1.5 s watchdog",
+    "level_text": "Coq theorems over all scripts and schedules: (progress) with context-aware adapters, once the context is done or a pump has reported, some thread can always move until the call has returned; (variant) every step strictly decreases a measure, so every run is finite with at most mu(init) adapter-level steps; (cleanup) at return cancel() ran, both pumps have exited and a created stream was closed. Wall-clock promptness and goroutines inside grpc-go/gws are measured by the harness watchdog only (partial).",
+    "level_note": "Trusted: as C01. The theorem bounds steps, not seconds; adapters' context-awareness is an explicit hypothesis of the progress theorem (true of all web adapters and AdaptedClientStream).",
+    "design_ref": "DESIGN.md §3 C02, appendix A.1",
+    "assumptions": ["'promptly' is measured (watchdog 1.5 s), not proved"],
+}
+
 NOT_APPLICABLE = {}
